@@ -379,7 +379,10 @@ def check_labels(ctx, case):
         return False
     want = same_molecule(mi, mj)
     if want is None:
-        raise HarnessError("label oracle not applicable")
+        # repeated ligands that the brute-force arrangement oracle cannot
+        # decide within its budget (or cannot model): no verdict
+        ctx.exclude("label-oracle-no-verdict")
+        return None
     if e1 != want or e2 != want:
         raise Violation(
             f"C12/labels/{kind}/repeated-ligands/"
@@ -495,8 +498,13 @@ def run(ctx):
                 n = rdgen.NLIG[kind]
                 pool = tp.shuffle(rdgen.LIG)
                 if repeated:
+                    # monoatomic ligands only: the arrangement oracle is a
+                    # brute force over atom bijections
+                    mono = [x for x in pool
+                            if x in ("F", "Cl", "Br", "I", "[H]")] or pool
                     m = 2 + tp.below(2)
-                    ligs = [pool[tp.below(m)] for _ in range(n)]
+                    ligs = [mono[tp.below(min(m, len(mono)))]
+                            for _ in range(n)]
                     if len(set(ligs)) == n:
                         ligs[1] = ligs[0]
                 else:
@@ -512,10 +520,13 @@ def run(ctx):
                     continue
                 case = {**base, "labels": [i, j], "opts": opts}
                 same = None
+                before = ctx.excluded.get("label-oracle-no-verdict", 0)
                 try:
                     same = check_labels(ctx, case)
                 except Exception as v:
                     ctx.fail_exc(v, case)
+                if ctx.excluded.get("label-oracle-no-verdict", 0) > before:
+                    break           # the oracle cannot decide this ligand set
                 lab = f"labels:{kind}" + (":repeated" if repeated else "")
                 ctx.count(1, labels=(lab,) + ((lab + ":same-arrangement",)
                                               if same else ()),
